@@ -637,10 +637,12 @@ impl<'a> Parser<'a> {
     /// assert_eq!(parser.remainder(), "foo\n\t bar");
     ///
     /// ```
-    pub const fn trim(mut self) -> Self {
-        parsing! {self, FromBoth;
-            self.str = crate::string::trim(self.str);
-        }
+    pub const fn trim(self) -> Self {
+        // only what's trimmed from the start moves `start_offset`
+        let mut this = self.trim_start();
+        this.str = crate::string::trim_end(this.str);
+        this.parse_direction = ParseDirection::FromBoth;
+        this
     }
 
     /// Removes whitespace from the start of the parsed string.
@@ -714,13 +716,15 @@ impl<'a> Parser<'a> {
     /// assert_eq!(parser.remainder(), "world");
     /// ```
     ///
-    pub const fn trim_matches<'p, P>(mut self, needle: P) -> Self
+    pub const fn trim_matches<'p, P>(self, needle: P) -> Self
     where
         P: Pattern<'p>,
     {
-        parsing! {self, FromBoth;
-            self.str = crate::string::trim_matches(self.str, needle);
-        }
+        // only what's trimmed from the start moves `start_offset`
+        let mut this = self.trim_start_matches(needle);
+        this.str = crate::string::trim_end_matches(this.str, needle);
+        this.parse_direction = ParseDirection::FromBoth;
+        this
     }
 
     /// Repeatedly removes all instances of `needle` from the start of the parsed string.
